@@ -729,7 +729,15 @@ func (env *Env) call(x *Expr) Val {
 		if x.Args[0].Op != "str" || env.lastResult == nil {
 			sfail("lastresult needs a string literal callee name at a program point")
 		}
-		v, ok := env.lastResult(x.Args[0].Name)
+		key := x.Args[0].Name
+		if len(x.Args) > 1 {
+			// lastresult("callee", k): the k-th component of a tuple result
+			if x.Args[1].Op != "int" {
+				sfail("lastresult: the component index must be a literal")
+			}
+			key += "@" + x.Args[1].Name
+		}
+		v, ok := env.lastResult(key)
 		if !ok {
 			sfail("lastresult(%q): no such call before this point", x.Args[0].Name)
 		}
@@ -766,6 +774,12 @@ func (env *Env) call(x *Expr) Val {
 		f := e.sc.declFun("bval", []string{"(Array Int " + e.sortOf(sl.Elem()) + ")", "Int", "Int"}, "Int")
 		c := e.elemComp(sl.Elem())
 		return Val{T: fmt.Sprintf("(%s (select %s (s_arr %s)) (s_off %s) (s_len %s))", f, e.get(env.st, c), a.T, a.T, a.T), Ty: mathInt}
+	case "funcref":
+		// funcref("pkg/path.Name"): the constant a function value of that name evaluates to
+		if x.Args[0].Op != "str" {
+			sfail("funcref needs a string literal")
+		}
+		return Val{T: e.funcConstByName(x.Args[0].Name), Ty: mathInt}
 	case "substr":
 		// substr(s, lo, hi): the term the engine uses for the Go expression s[lo:hi] on strings
 		a, lo, hi := env.tr(x.Args[0]), env.tr(x.Args[1]), env.tr(x.Args[2])
